@@ -104,6 +104,15 @@ def essential(w):
         for f in db.ArchiveFile.select():
             out["bytes"][f"{f.id}@{n.id}"] = w.file_on(n, f) is not None
     out["imports_done"] = sorted((r.path, bool(r.completed)) for r in db.ArchiveFileImportRequest.select())
+    # the directories left on each node ("gone from its source exactly as an uninterrupted run leaves it")
+    out["dirs"] = {}
+    for n in db.StorageNode.select():
+        ds = []
+        for dp, dn, fn in os.walk(n.root):
+            for d_ in dn:
+                if not d_.startswith(".alpentemp"):      # scratch directories of a killed transfer are the tidy-up task's business
+                    ds.append(os.path.relpath(os.path.join(dp, d_), n.root))
+        out["dirs"][n.name] = sorted(ds)
     return out
 
 
@@ -188,6 +197,11 @@ def sweep(ctx, e, kind, variant, route):
         for p in crash_inv(w, {}):
             ctx.violation(f"recover:{kind}:{p[:30]}", f"after recovery from a kill before primitive #{k} of {kind}: {p}",
                           {"kind": "crash", "task": kind, "variant": variant, "k": k})
+        if kind == "delete" and got["dirs"] != ref["dirs"]:
+            dd = {n_: (ref["dirs"].get(n_), got["dirs"].get(n_)) for n_ in ref["dirs"] if ref["dirs"].get(n_) != got["dirs"].get(n_)}
+            ctx.violation(f"recover:{kind}:directories", f"{kind} task killed before primitive #{k}: after restart and convergence the "
+                          f"directories on storage differ from what an uninterrupted run leaves (node: (uninterrupted, after crash)): {dd}",
+                          {"kind": "crash", "task": kind, "variant": variant, "route": route, "k": k})
         if got != ref:
             diff = {sec: {x: (ref[sec].get(x), got[sec].get(x)) for x in set(ref[sec]) | set(got[sec]) if ref[sec].get(x) != got[sec].get(x)}
                     for sec in ("copies", "bytes")}
@@ -204,7 +218,7 @@ def sweep(ctx, e, kind, variant, route):
 
 def run(ctx):
     ok = common.proof_stage(ctx, MODULE)
-    scen = [("pull", 0, "none"), ("pull", 1, "rsync-only"), ("pull", 1, "none"), ("pull", 6, "none"), ("pull", 7, "rsync-only"), ("pull", 8, "none"), ("pull", 9, "rsync-only"), ("delete", 0, "none"), ("check", 0, "none"), ("import", 0, "none")]
+    scen = [("pull", 0, "none"), ("pull", 1, "rsync-only"), ("pull", 1, "none"), ("pull", 6, "none"), ("pull", 7, "rsync-only"), ("pull", 8, "none"), ("pull", 9, "rsync-only"), ("delete", 0, "none"), ("delete", 13, "none"), ("check", 0, "none"), ("import", 0, "none")]
     if not ctx.quick():
         scen += [("pull", v, r) for v in (2, 3, 4, 5) for r in ("none", "rsync-only")] + [("delete", 1, "none"), ("import", 1, "none")]
     with envmod.CliEnv() as e:
